@@ -115,7 +115,7 @@ Definition subj_refs (l : list (didx * quad)) : list ref :=
   flat_map (fun iq => match get_ref (qs (snd iq)) with Some s => [s] | None => [] end) l.
 
 Definition add_new (acc : list ref) (s : ref) : list ref :=
-  if existsb (ref_eqb s) acc then acc else acc ++ [s].
+  if existsb (fun c => ref_eqb c s) acc then acc else acc ++ [s].
 
 (* distinct child nodes of the key k, first appearance first *)
 Definition kids (ds : dataset) (k : qkey) (visited : list (didx * quad)) : list ref :=
